@@ -338,3 +338,92 @@ func (l LinForm) Subst(term string, k int64) LinForm {
 	out.Const += int64(l.Terms[term]) * k
 	return out
 }
+
+// CmpAtom normalises an integer order comparison `A op B` (op ∈ <, <=, >, >=) to the form d < 0.
+func CmpAtom(info *types.Info, e ast.Expr) (LinForm, bool) {
+	be, ok := ast.Unparen(e).(*ast.BinaryExpr)
+	if !ok {
+		return LinForm{}, false
+	}
+	a, ok1 := Linear(info, be.X)
+	b, ok2 := Linear(info, be.Y)
+	if !ok1 || !ok2 {
+		return LinForm{}, false
+	}
+	switch be.Op {
+	case token.LSS:
+		return a.add(b, -1), true
+	case token.LEQ:
+		d := a.add(b, -1)
+		d.Const--
+		return d, true
+	case token.GTR:
+		return b.add(a, -1), true
+	case token.GEQ:
+		d := b.add(a, -1)
+		d.Const--
+		return d, true
+	}
+	return LinForm{}, false
+}
+
+// NegAtom: ¬(d < 0) over the integers is -d-1 < 0.
+func NegAtom(d LinForm) LinForm {
+	n := d.scale(-1)
+	n.Const--
+	return n
+}
+
+// DNF turns a boolean combination (&&, ||, !, parentheses) of integer order comparisons into a disjunction of
+// conjunctions of atoms d < 0 (printed LinForms).  inline may replace a sub-expression (e.g. a call of a
+// one-line boolean helper) by the expression it stands for.  ok=false if a leaf is not an order comparison.
+func DNF(info *types.Info, e ast.Expr, inline func(ast.Expr) (ast.Expr, *types.Info)) ([][]string, bool) {
+	var rec func(e ast.Expr, info *types.Info, neg bool) ([][]string, bool)
+	cross := func(a, b [][]string) [][]string {
+		var out [][]string
+		for _, x := range a {
+			for _, y := range b {
+				out = append(out, append(append([]string{}, x...), y...))
+			}
+		}
+		return out
+	}
+	rec = func(e ast.Expr, info *types.Info, neg bool) ([][]string, bool) {
+		e = ast.Unparen(e)
+		if inline != nil {
+			if r, ri := inline(e); r != nil {
+				return rec(r, ri, neg)
+			}
+		}
+		switch x := e.(type) {
+		case *ast.UnaryExpr:
+			if x.Op == token.NOT {
+				return rec(x.X, info, !neg)
+			}
+		case *ast.BinaryExpr:
+			if x.Op == token.LAND || x.Op == token.LOR {
+				l, ok1 := rec(x.X, info, neg)
+				r, ok2 := rec(x.Y, info, neg)
+				if !ok1 || !ok2 {
+					return nil, false
+				}
+				and := x.Op == token.LAND
+				if neg {
+					and = !and
+				}
+				if and {
+					return cross(l, r), true
+				}
+				return append(l, r...), true
+			}
+			if d, ok := CmpAtom(info, x); ok {
+				if neg {
+					d = NegAtom(d)
+				}
+				return [][]string{{d.String()}}, true
+			}
+		}
+		return nil, false
+	}
+	return rec(e, info, false)
+}
